@@ -14,7 +14,7 @@ import random
 
 import numpy as np
 
-from .. import core, geo, motlutil
+from .. import core, geo, inputforms, motlutil
 
 SNAP = 1e-9
 
@@ -26,7 +26,7 @@ def cfg(rot, place, window, sym, mode, invs=INVS, placelist="Empty"):
              " PlaceListCases <- %s" % placelist,
              " WindowCases <- %s" % window, " SymCases <- %s" % sym, ' EmitMode = "%s"' % mode]
     lines += ["INVARIANT %s" % i for i in invs]
-    lines.append("PROPERTY C14_InputsUntouched")
+    lines += ["PROPERTY C14_InputsUntouched", "PROPERTY C14_ResultsPersist"]
     if mode == "tr":
         lines.append("ACTION_CONSTRAINT EmitTR")
     return "\n".join(lines) + "\n"
@@ -61,13 +61,88 @@ class ArgGuard:
         bad = self.changed()
         if bad:
             ctx.fail("C14_InputsUntouched", "%s changed its argument(s) %s in place" % (call, bad), case, dict(sig, argument=bad[0]))
-            for name in bad:        # judge the following calls on the intended inputs again
-                obj, snap = self.items[name]
+            self.restore(bad)
+        return not bad
+
+    def restore(self, names):
+        for name in names:        # judge the following calls on the intended inputs again
+            obj, snap = self.items[name]
+            try:
                 if hasattr(obj, "columns"):
                     obj.iloc[:, :] = snap.to_numpy()
                 else:
+                    flag = obj.flags.writeable
+                    if not flag:
+                        obj.flags.writeable = True
                     obj[...] = snap
-        return not bad
+                    obj.flags.writeable = flag
+            except Exception:
+                pass
+
+    def after(self, ctx, case, sig, call, raw, hold=False):
+        """After a call whose result `raw` has been judged: (1) the arguments are what they were; (2) the result is the
+        caller's own array - it shares no memory with an argument, and when the caller edits it in place (normalises a
+        box, masks a map) the arguments stay what they were; with hold the result is kept untouched instead and must
+        still be the same when finish() is called after the later calls (result persistence)."""
+        self.check(ctx, case, sig, call)
+        if not isinstance(raw, np.ndarray) or raw.size == 0:
+            return
+        for name, (obj, _) in self.items.items():
+            if isinstance(obj, np.ndarray) and np.shares_memory(obj, raw):
+                ctx.fail("C14_ResultOwnsItsMemory", "the array returned by %s shares memory with its argument %s" % (call, name),
+                         case, dict(sig, argument=name))
+        if hold:
+            self.held = getattr(self, "held", []) + [(call, raw, raw.copy())]
+        elif raw.flags.writeable:
+            np.copyto(raw, np.full(raw.shape, 113).astype(raw.dtype), casting="unsafe")
+            bad = self.changed()
+            if bad:
+                ctx.fail("C14_ResultOwnsItsMemory", "editing the array returned by %s in place changed the argument(s) %s" % (
+                    call, bad), case, dict(sig, argument=bad[0]))
+                self.restore(bad)
+
+    def finish(self, ctx, case, sig):
+        for call, raw, snap in getattr(self, "held", []):
+            if raw.shape != snap.shape or not np.array_equal(raw, snap, equal_nan=(raw.dtype.kind == "f")):
+                ctx.fail("C14_ResultsPersist", "the array returned earlier by %s changed during later calls" % call, case, sig)
+        self.held = []
+
+
+def disturb14(k):
+    """Call-history independence: other public cryomap calls (the same functions with non-default options, and their
+    neighbours) between the judged calls.  What they return is not judged here; they must not change what follows."""
+    if k is None:
+        return
+    from cryocat import cryomap
+    r = random.Random(k)
+    small = np.arange(6 * 6 * 6, dtype=float).reshape(6, 6, 6) / 7.0
+    pick = k % 8
+
+    def quiet(fn, *a, **kw):
+        try:
+            fn(*a, **kw)
+        except Exception:
+            pass
+    if pick == 0:
+        quiet(cryomap.rotate, small, rotation_angles=[r.uniform(-180, 180), 33.0, 7.0], spline_order=1)
+    elif pick == 1:
+        quiet(cryomap.rotate, small, rotation_angles=np.radians([40.0, 50.0, 60.0]), degrees=False, coord_space="ZYZ")
+    elif pick == 2:
+        quiet(cryomap.symmetrize_volume, small, r.choice([3, "C5", 7.0]))
+    elif pick == 3:
+        quiet(cryomap.extract_subvolume, small, [1, 2, 3], [4, 4, 4], enforce_shape=True)
+    elif pick == 4:
+        quiet(cryomap.pad, small, [8, 10, 12], fill_value=3.0)
+        quiet(cryomap.crop, small, 2)
+    elif pick == 5:
+        quiet(cryomap.shift, small, [1, 0, -1])
+        quiet(cryomap.normalize, small)
+    elif pick == 6:
+        quiet(cryomap.get_start_end_indices, np.array([9.0, -2.0, 3.0]), (6, 6, 6), (4, 2, 6))
+        quiet(cryomap.binarize, small, 0.3)
+    else:
+        quiet(cryomap.trim, small, [1, 1, 1], [4, 4, 4])
+        quiet(cryomap.flip, small, axis="x")
 
 
 def dense_volume(rng, dims):
@@ -84,41 +159,67 @@ def rot_from_code(code):
 
 # ---- L2: rotate ---------------------------------------------------------------------------------------------
 def run_rotate(ctx, case):
-    """case: {kind: l2_rotate, dims, r, pairs: [[dst, src], ..], variant}"""
+    """case: {kind: l2_rotate, dims, r, pairs: [[dst, src], ..], variant}
+    One map (stored C / Fortran / strided / read-only) and one float64 angle array are the caller's objects for the whole
+    series of calls; the orientation is spelled in every equivalent way the function documents."""
+    disturb14(case.get("disturb"))
     from cryocat import cryomap
+    from . import c06
     rng = random.Random(case["variant"])
     dims = case["dims"]
-    vol = dense_volume(rng, dims)
+    vform = ["c_float64", "fortran", "noncontiguous", "readonly"][case["variant"] % 4]
+    vol = inputforms.store(dense_volume(rng, dims), vform)
     ang = geo.euler_for_code(case["r"], rng)
     ivol = np.rint(vol).astype(np.int16)          # the same kind of map stored as integers
     g = ArgGuard()
     g.track("input_map", vol)
     g.track("input_map_int16", ivol)
     arr = g.track("rotation_angles", np.array(ang, dtype=np.float64))      # one angle array, used for several calls
-    forms = [("rotation_angles_array", lambda: cryomap.rotate(vol, rotation_angles=arr)),
-             ("rotation_angles", lambda: cryomap.rotate(vol, rotation_angles=list(ang))),
-             ("rotation_transposed", lambda: cryomap.rotate(vol, rotation=rot_from_code(case["r"]), transpose_rotation=True)),
-             ("rotation_angles_int16", lambda: cryomap.rotate(ivol, rotation_angles=arr)),
-             ("rotation_angles_array", lambda: cryomap.rotate(vol, rotation_angles=arr))]
+    rad = g.track("rotation_angles_rad", np.radians(np.array(ang, dtype=np.float64)))
+    conv = ["ZXZ", "zyz", "ZYZ", "XYZ", "xyz"][case["variant"] % 5]
+    cang = c06.conv_euler_for_code(conv, case["r"], rng)
+    R = rot_from_code(case["r"])
+    forms = [("rotation_angles_array", lambda: cryomap.rotate(vol, rotation_angles=arr), vol),
+             ("rotation_angles_list", lambda: cryomap.rotate(vol, rotation_angles=list(ang)), vol),
+             ("rotation_angles_tuple", lambda: cryomap.rotate(vol, rotation_angles=tuple(ang), coord_space="zxz", degrees=True), vol),
+             ("rotation_angles_int", lambda: cryomap.rotate(vol, rotation_angles=np.array(ang).astype(np.int64)), vol),
+             ("rotation_angles_float32", lambda: cryomap.rotate(vol, rotation_angles=np.array(ang, dtype=np.float32)), vol),
+             ("rotation_angles_radians", lambda: cryomap.rotate(vol, rotation_angles=rad, degrees=False), vol),
+             ("rotation_angles_" + conv, lambda: cryomap.rotate(vol, rotation_angles=cang, coord_space=conv), vol),
+             ("rotation_transposed", lambda: cryomap.rotate(vol, rotation=R, transpose_rotation=True), vol),
+             ("rotation_inverse_untransposed", lambda: cryomap.rotate(vol, rotation=R.inv(), transpose_rotation=False), vol),
+             ("rotation_inverse_default", lambda: cryomap.rotate(vol, rotation=R.inv()), vol),
+             ("spline_order_1", lambda: cryomap.rotate(vol, rotation_angles=arr, spline_order=1), vol),
+             ("rotation_angles_int16", lambda: cryomap.rotate(ivol, rotation_angles=arr), ivol),
+             ("rotation_angles_array", lambda: cryomap.rotate(vol, rotation_angles=arr), vol)]
+    sel = forms[:2] + rng.sample(forms[2:-2], 5) + forms[-2:]
+    if case["variant"] % 6 == 0:
+        # the same integer-valued map read from a file (float32 on disk), path given as str
+        ext = [".mrc", ".em", ".rec"][(case["variant"] // 6) % 3]
+        path = os.path.join(ctx.workdir, "rot_%d%s" % (case["variant"], ext))
+        cryomap.write(ivol.astype(np.single), path, data_type=np.single)
+        parg = str(path)            # documented: "str or numpy.ndarray" (pathlib paths are not accepted by cryomap.read)
+        sel.insert(3, ("input_map_path" + ext, lambda: cryomap.rotate(parg, rotation_angles=arr), ivol))
     scale = float(np.max(np.abs(vol)))
-    for name, fn in forms:
-        out, err = core.call_guarded(fn)
-        sig = {"op": "rotate", "form": name, "box": "cubic" if len(set(dims)) == 1 else "noncubic"}
-        g.check(ctx, case, sig, "rotate")
+    for k_, (name, fn, ref) in enumerate(sel):
+        raw, err = core.call_guarded(fn)
+        sig = {"op": "rotate", "form": name, "box": "cubic" if len(set(dims)) == 1 else "noncubic", "map": vform}
         if err is not None:
+            g.check(ctx, case, sig, "rotate")
             ctx.fail("call_raises", err, case, sig)
             continue
-        out = np.asarray(out)
+        out = np.asarray(raw)
         if out.shape != tuple(dims):
             ctx.fail("C14_ActiveConvention", "rotate returned shape %s for a %s map" % (out.shape, dims), case, sig)
-            continue
-        ref = ivol if name.endswith("int16") else vol
-        bad = [(d, s, float(out[tuple(d)]), float(ref[tuple(s)])) for d, s in case["pairs"]
-               if not abs(out[tuple(d)] - ref[tuple(s)]) <= SNAP * scale]
-        if bad:
-            d, s, got, want = bad[0]
-            ctx.fail("C14_ActiveConvention", "%s: %d of %d decided voxels differ; e.g. result%s = %r, the specification says "
-                     "the value of source voxel %s = %r" % (name, len(bad), len(case["pairs"]), d, got, s, want), case, sig)
+        else:
+            bad = [(d, s_, float(out[tuple(d)]), float(ref[tuple(s_)])) for d, s_ in case["pairs"]
+                   if not abs(out[tuple(d)] - ref[tuple(s_)]) <= SNAP * scale]
+            if bad:
+                d, s_, got, want = bad[0]
+                ctx.fail("C14_ActiveConvention", "%s: %d of %d decided voxels differ; e.g. result%s = %r, the specification says "
+                         "the value of source voxel %s = %r" % (name, len(bad), len(case["pairs"]), d, got, s_, want), case, sig)
+        g.after(ctx, case, sig, "rotate", raw, hold=(k_ == 0))
+    g.finish(ctx, case, {"op": "rotate", "form": "earlier result", "map": vform})
     ctx.ran(case)
 
 
@@ -126,6 +227,7 @@ def run_rotate(ctx, case):
 def run_place(ctx, case):
     """case: {kind: l2_place, cdims, tmpl: {S, cells:[{o,hi}]}, poses: [{pos, r, colour}], placed: [[x, colour]],
     shifted: [[[..]]], variant}"""
+    disturb14(case.get("disturb"))
     from cryocat import cryomap, cryomotl
     rng = random.Random(case["variant"])
     S = case["tmpl"]["S"]
@@ -157,10 +259,22 @@ def run_place(ctx, case):
         cols[feature][i] = cmap(p["colour"])
     # row labels are not part of a particle list (sorted / filtered tables keep their old labels)
     imode = (case["variant"] // 3) % 4
-    motl = cryomotl.Motl(motlutil.vary_index(motlutil.df_from_cols(cols), case["variant"] // 3))
+    # ... nor is the order of the 20 named columns
+    motl = cryomotl.Motl(motlutil.vary_columns(motlutil.vary_index(motlutil.df_from_cols(cols), case["variant"] // 3),
+                                               case["variant"] // 5))
     index_kind = {0: "default", 1: "default", 2: "permuted", 3: "gapped"}[imode] if n > 0 else "default"
     cdims = tuple(case["cdims"])
-    form = case["variant"] % 3
+    form = case["variant"] % 4
+    tform = "c_float64"
+    if tkind == 0:
+        tform = ["c_float64", "fortran", "noncontiguous", "readonly"][(case["variant"] // 11) % 4]
+        tmpl = inputforms.store(tmpl, tform)
+    background = [0.0, 0.25][(case["variant"] // 13) % 2]       # what the given container holds where nothing is stamped
+    tpath = None
+    if form == 3:
+        # template read from a file (float32 on disk; the 0.1 threshold separates the same voxels)
+        tpath = os.path.join(ctx.workdir, "tmpl_%d%s" % (case["variant"], [".em", ".mrc"][(case["variant"] // 4) % 2]))
+        cryomap.write(np.asarray(tmpl, dtype=np.single), tpath, data_type=np.single)
 
     g = ArgGuard()
     g.track("input_object", tmpl)
@@ -170,29 +284,33 @@ def run_place(ctx, case):
         if form == 0:
             return cryomap.place_object(tmpl, motl, volume_shape=cdims, feature_to_color=feature)
         if form == 1:
-            return cryomap.place_object(tmpl, motl, volume=np.zeros(cdims), feature_to_color=feature)
+            return cryomap.place_object(tmpl, motl, volume=np.full(cdims, background), feature_to_color=feature)
+        if form == 3:
+            return cryomap.place_object(tpath, motl, volume_shape=np.array(cdims), feature_to_color=feature)
         if feature == "object_id":
             return cryomap.place_object(tmpl, motl, volume_shape=list(cdims))
         return cryomap.place_object(tmpl, motl, volume_shape=list(cdims), feature_to_color=feature)
 
-    out, err = core.call_guarded(call)
     sig = {"op": "place_object", "poses": "one" if n == 1 else "many", "index": index_kind,
-           "template": ["float64", "int8", "int16", "bool"][tkind]}
-    g.check(ctx, case, sig, "place_object")
-    if err is not None:
-        ctx.fail("call_raises", err, case, sig)
-    else:
-        out = np.asarray(out, dtype=float)
-        want = np.zeros(cdims)
-        for x, colour in case["placed"]:
-            want[tuple(x)] = cmap(colour)
+           "template": ["float64", "int8", "int16", "bool"][tkind] if form != 3 else "path", "stored": tform}
+    want = np.full(cdims, background if form == 1 else 0.0)
+    for x, colour in case["placed"]:
+        want[tuple(x)] = cmap(colour)
+    for rep in range(2):            # the same template and list once more: same container
+        raw, err = core.call_guarded(call)
+        if err is not None:
+            g.check(ctx, case, sig, "place_object")
+            ctx.fail("call_raises", err, case, sig)
+            break
+        out = np.asarray(raw, dtype=float)
         if out.shape != cdims:
             ctx.fail("C14_PlaceStamps", "container of shape %s returned for %s" % (out.shape, cdims), case, sig)
         elif not np.all(np.isfinite(out)) or np.max(np.abs(out - want)) > 1e-12:
             diff = np.argwhere(~(np.abs(out - want) <= 1e-12))
             d0 = tuple(int(v) for v in diff[0])
-            ctx.fail("C14_PlaceStamps", "%d container voxels differ from the specification; e.g. voxel %s = %r, expected %r" % (
-                len(diff), d0, float(out[d0]), float(want[d0])), case, sig)
+            ctx.fail("C14_PlaceStamps", "%d container voxels differ from the specification; e.g. voxel %s = %r, expected %r%s" % (
+                len(diff), d0, float(out[d0]), float(want[d0]), " (second call with the same arguments)" if rep else ""), case, sig)
+        g.after(ctx, case, sig, "place_object", raw)
     # the same active convention as Motl.shift_positions: stamped voxel = complete position after shifting by the offset.
     # The whole list (with its row labels) is shifted, in place or into a new list.
     for j in rng.sample(range(len(case["tmpl"]["cells"])), min(3, len(case["tmpl"]["cells"]))):
@@ -238,6 +356,7 @@ def build_template(tm, rng, tkind=0):
 def run_placelist(ctx, case):
     """case: {kind: l2_placelist, cdims, tmpls: [{S, cells}], poses: [{pos, r, colour}], placed, variant}: input_object is a
     list with one template per particle; poses with the same orientation get literally the same Euler angles"""
+    disturb14(case.get("disturb"))
     from cryocat import cryomap, cryomotl
     rng = random.Random(case["variant"])
     poses = case["poses"]
@@ -257,19 +376,23 @@ def run_placelist(ctx, case):
         cols["tomo_id"][i] = 1
         cols["subtomo_id"][i] = i + 1
         cols["object_id"][i] = p["colour"]
-    motl = cryomotl.Motl(motlutil.vary_index(motlutil.df_from_cols(cols), case["variant"] // 3))
+    motl = cryomotl.Motl(motlutil.vary_columns(motlutil.vary_index(motlutil.df_from_cols(cols), case["variant"] // 3),
+                                               case["variant"] // 5))
     cdims = tuple(case["cdims"])
     g = ArgGuard()
     for i_, t_ in enumerate(tmpls):
         g.track("input_object[%d]" % i_, t_)
     g.track("motl.df", motl.df)
-    out, err = core.call_guarded(lambda: cryomap.place_object(tmpls, motl, volume_shape=cdims))
+    ids_before = [id(t_) for t_ in tmpls]   # the list itself: same entries, same order afterwards
+    raw, err = core.call_guarded(lambda: cryomap.place_object(tmpls, motl, volume_shape=cdims))
     sig = {"op": "place_object", "poses": "many", "template": "list"}
+    if [id(t_) for t_ in tmpls] != ids_before:
+        ctx.fail("C14_InputsUntouched", "place_object changed the caller's list of templates", case, sig)
     g.check(ctx, case, sig, "place_object")
     if err is not None:
         ctx.fail("call_raises", err, case, sig)
     else:
-        out = np.asarray(out, dtype=float)
+        out = np.asarray(raw, dtype=float)
         want = np.zeros(cdims)
         for x, colour in case["placed"]:
             want[tuple(x)] = float(colour)
@@ -306,10 +429,14 @@ def expected_window(vol, axes, fill):
 
 
 def run_window(ctx, case):
-    """case: {kind: l2_window, vdims, centre, shape, axes: [[src index or -1 per window position] x 3], variant}"""
+    """case: {kind: l2_window, vdims, centre, shape, axes: [[src index or -1 per window position] x 3], variant}
+    The volume (stored C / Fortran / strided / read-only), the centre and the shape are the caller's objects and are
+    reused for every call; the returned boxes are edited in place afterwards, as a caller normalising a box would."""
+    disturb14(case.get("disturb"))
     from cryocat import cryomap
     rng = random.Random(case["variant"])
-    vol = dense_volume(rng, case["vdims"])
+    vform = ["c_float64", "fortran", "noncontiguous", "readonly"][case["variant"] % 4]
+    vol = inputforms.store(dense_volume(rng, case["vdims"]), vform)
     mean = float(np.mean(vol))
     want = expected_window(vol, case["axes"], mean)
     cls = window_class(case)
@@ -318,25 +445,33 @@ def run_window(ctx, case):
     g.track("volume", vol)
     cen = g.track("coordinates", np.array(centre, dtype=np.float64))
     shp = g.track("subvolume_shape", np.array(shape))
+    ceni = g.track("coordinates_int", np.array(centre, dtype=np.int64))
     calls = [("extract_subvolume", lambda: cryomap.extract_subvolume(vol, cen, shp)),
-             ("extract_subvolume", lambda: cryomap.extract_subvolume(vol, cen, shp))]
-    if case["variant"] % 2:
-        calls.append(("extract_subvolume", lambda: cryomap.extract_subvolume(vol, np.array(centre), tuple(shape))))
+             ("extract_subvolume", lambda: cryomap.extract_subvolume(vol, cen, shp)),
+             ("extract_subvolume", lambda: cryomap.extract_subvolume(vol, ceni, tuple(shape))),
+             ("extract_subvolume", lambda: cryomap.extract_subvolume(vol, [float(v) for v in centre], list(shape))),
+             ("extract_subvolume", lambda: cryomap.extract_subvolume(vol, tuple(centre), shp, enforce_shape=False, output_file=None))]
+    calls = calls[:2] + [calls[2 + case["variant"] % 3]]
     if cls == "inside":
         calls.append(("crop", lambda: cryomap.crop(vol, shp, crop_coord=cen)))
+        calls.append(("crop", lambda: cryomap.crop(vol, tuple(shape), crop_coord=list(centre))))
         if list(centre) == [d // 2 for d in case["vdims"]]:
             calls.append(("crop", lambda: cryomap.crop(vol, list(shape))))
+            if len(set(shape)) == 1:
+                calls.append(("crop", lambda: cryomap.crop(vol, int(shape[0]))))
     covering = all(m.count(-1) + case["vdims"][ax] == len(m) for ax, m in enumerate(case["axes"]))
     if covering and list(centre) == [d // 2 for d in case["vdims"]] and all(d % 2 == 0 for d in case["vdims"]):
         calls.append(("pad", lambda: cryomap.pad(vol, tuple(shape))))
-    for name, fn in calls:
-        out, err = core.call_guarded(fn)
-        sig = {"op": name, "window": cls}
-        g.check(ctx, case, sig, name)
+        calls.append(("pad", lambda: cryomap.pad(vol, shp, fill_value=None)))
+    calls.append(("extract_subvolume", lambda: cryomap.extract_subvolume(vol, cen, shp)))     # once more after all the edits
+    for k_, (name, fn) in enumerate(calls):
+        raw, err = core.call_guarded(fn)
+        sig = {"op": name, "window": cls, "volume": vform}
         if err is not None:
+            g.check(ctx, case, sig, name)
             ctx.fail("call_raises", err, case, sig)
             continue
-        out = np.asarray(out, dtype=float)
+        out = np.asarray(raw, dtype=float)
         if out.shape != want.shape:
             ctx.fail("C14_WindowExact", "%s returned shape %s for the requested window %s" % (name, out.shape, shape), case, sig)
         elif not np.all(np.isfinite(out)) or np.max(np.abs(out - want)) > 1e-12 * max(1.0, float(np.max(np.abs(vol)))):
@@ -344,38 +479,45 @@ def run_window(ctx, case):
             d0 = tuple(int(v) for v in diff[0]) if len(diff) else (0, 0, 0)
             ctx.fail("C14_WindowExact", "%s: %d window voxels differ; e.g. window%s = %r, expected %r (volume mean %r)" % (
                 name, len(diff), d0, float(out[d0]), float(want[d0]), mean), case, sig)
+        g.after(ctx, case, sig, name, raw, hold=(k_ == 0))
+    g.finish(ctx, case, {"op": "extract_subvolume", "window": cls, "volume": vform})
     ctx.ran(case)
 
 
 # ---- L2: symmetrisation -----------------------------------------------------------------------------------------
 def run_sym(ctx, case):
-    """case: {kind: l2_sym, dims, n, pairs: [[dst, [src_1..src_n]], ..], variant}"""
+    """case: {kind: l2_sym, dims, n, pairs: [[dst, [src_1..src_n]], ..], variant}: every spelling of the symmetry order"""
+    disturb14(case.get("disturb"))
     from cryocat import cryomap
     rng = random.Random(case["variant"])
-    vol = dense_volume(rng, case["dims"])
+    vform = ["c_float64", "fortran", "noncontiguous", "readonly"][case["variant"] % 4]
+    vol = inputforms.store(dense_volume(rng, case["dims"]), vform)
     n = case["n"]
-    arg = n if case["variant"] % 2 == 0 else "C%d" % n
+    spellings = [n, "C%d" % n, "c%d" % n, float(n), np.int64(n), np.float32(n), np.int32(n)]
     g = ArgGuard()
     g.track("vol", vol)
-    out, err = core.call_guarded(cryomap.symmetrize_volume, vol, arg)
-    sig = {"op": "symmetrize_volume", "n": n}
-    g.check(ctx, case, sig, "symmetrize_volume")
-    if err is not None:
-        ctx.fail("call_raises", err, case, sig)
-    else:
-        out = np.asarray(out, dtype=float)
-        scale = float(np.max(np.abs(vol)))
+    scale = float(np.max(np.abs(vol)))
+    for k_, arg in enumerate([spellings[case["variant"] % 7], spellings[(case["variant"] // 7 + 3) % 7]]):
+        raw, err = core.call_guarded(cryomap.symmetrize_volume, vol, arg)
+        sig = {"op": "symmetrize_volume", "n": n, "symmetry": type(arg).__name__, "map": vform}
+        if err is not None:
+            g.check(ctx, case, sig, "symmetrize_volume")
+            ctx.fail("call_raises", err, case, sig)
+            continue
+        out = np.asarray(raw, dtype=float)
         if out.shape != vol.shape:
             ctx.fail("C14_SymIsMeanOfRotatedCopies", "shape %s returned for %s" % (out.shape, vol.shape), case, sig)
         else:
             bad = []
             for dst, srcs in case["pairs"]:
-                want = sum(float(vol[tuple(s)]) for s in srcs) / n
+                want = sum(float(vol[tuple(s_)]) for s_ in srcs) / n
                 if not abs(out[tuple(dst)] - want) <= SNAP * scale:
                     bad.append((dst, float(out[tuple(dst)]), want))
             if bad:
                 ctx.fail("C14_SymIsMeanOfRotatedCopies", "%d of %d decided voxels differ; e.g. result%s = %r, mean of the %d "
                          "rotated sources = %r" % (len(bad), len(case["pairs"]), bad[0][0], bad[0][1], n, bad[0][2]), case, sig)
+        g.after(ctx, case, sig, "symmetrize_volume", raw, hold=(k_ == 0))
+    g.finish(ctx, case, {"op": "symmetrize_volume", "n": n})
     ctx.ran(case)
 
 
@@ -508,7 +650,7 @@ def rotblob_event(case):
     return [ev]
 
 
-def gen_sym(rng, idx, big):
+def gen_sym(rng, idx, big, n=None):
     n0 = rng.randint(24, 40 if big else 32)
     dims = [n0, n0, rng.choice([n0, rng.randint(16, 32)])]
     c = [d // 2 for d in dims]
@@ -521,7 +663,7 @@ def gen_sym(rng, idx, big):
         a = rng.uniform(0, 2 * math.pi)
         z = rng.uniform(margin, dims[2] - 1 - margin)
         blobs.append({"c": [c[0] + r * math.cos(a), c[1] + r * math.sin(a), z], "sigma": sigma, "w": rng.uniform(0.5, 2.0)})
-    return {"kind": "l3_sym", "id": idx, "dims": dims, "n": rng.randint(2, 12), "blobs": blobs, "form": rng.randrange(2)}
+    return {"kind": "l3_sym", "id": idx, "dims": dims, "n": n or rng.randint(2, 12), "blobs": blobs, "form": rng.randrange(2)}
 
 
 def sym_event(case):
@@ -709,7 +851,7 @@ def run(ctx):
     kinds = {}
     for t in trs:
         kinds.setdefault(t["kind"], []).append(t)
-    if len(kinds.get("rotate", [])) < 96 or not kinds.get("place") or len(kinds.get("window", [])) < 2000 or len(kinds.get("sym", [])) != 8:
+    if len(kinds.get("rotate", [])) < 96 or not kinds.get("place") or len(kinds.get("window", [])) < 2000 or len(kinds.get("sym", [])) != 12:
         raise core.MachineryError("MC_MapGeom emitted %s" % {k: len(v) for k, v in kinds.items()})
     ctx.exhaustive["L1_MC_MapGeom"] = True
     ctx.extra["transitions_emitted"] = len(trs)
@@ -720,40 +862,41 @@ def run(ctx):
         for rep in range(ctx.pick(1, 3)):
             i += 1
             run_rotate(ctx, {"kind": "l2_rotate", "dims": t["inp"]["dims"], "r": t["inp"]["r"], "pairs": t["out"]["pairs"],
-                             "variant": var(i)})
+                             "variant": var(i), "disturb": (var(i) * 31 + 7) if var(i) % 3 == 0 else None})
     ctx.exhaustive["L2_rotate"] = True
     for t in kinds["place"]:
         for rep in range(ctx.pick(1, 3)):
             i += 1
             run_place(ctx, {"kind": "l2_place", "cdims": t["inp"]["cdims"], "tmpl": t["inp"]["tmpl"], "poses": t["inp"]["poses"],
-                            "placed": t["out"]["placed"], "shifted": t["out"]["shifted"], "variant": var(i)})
+                            "placed": t["out"]["placed"], "shifted": t["out"]["shifted"], "variant": var(i), "disturb": (var(i) * 31 + 7) if var(i) % 3 == 0 else None})
     ctx.exhaustive["L2_place"] = True
     for t in kinds.get("placelist", []):
         for rep in range(ctx.pick(1, 3)):
             i += 1
             run_placelist(ctx, {"kind": "l2_placelist", "cdims": t["inp"]["cdims"], "tmpls": t["inp"]["tmpls"],
-                                "poses": t["inp"]["poses"], "placed": t["out"]["placed"], "variant": var(i)})
+                                "poses": t["inp"]["poses"], "placed": t["out"]["placed"], "variant": var(i), "disturb": (var(i) * 31 + 7) if var(i) % 3 == 0 else None})
     if len(kinds.get("placelist", [])) < 100:
         raise core.MachineryError("MC_MapGeom emitted %d list placements" % len(kinds.get("placelist", [])))
     # centred windows (crop / pad) are always replayed; the grid of off-centre windows is sub-sampled in the quick tier
-    centred = [t for t in kinds["window"] if t["inp"]["centre"] == [v // 2 for v in t["inp"]["vdims"]]]
+    centred = [t for t in kinds["window"] if t["inp"]["centre"] == [v // 2 for v in t["inp"]["vdims"]]
+               or t["inp"]["vdims"] != [4, 5, 6]]
     grid = sorted([t for t in kinds["window"] if t not in centred], key=lambda t: core.stable_hash([seed, t["inp"]]))
     budget = ctx.pick(700, len(grid))
     ctx.exhaustive["L2_window"] = budget >= len(grid)
     for t in centred + grid[:budget]:
         i += 1
         run_window(ctx, {"kind": "l2_window", "vdims": t["inp"]["vdims"], "centre": t["inp"]["centre"], "shape": t["inp"]["shape"],
-                         "axes": t["out"]["axes"], "variant": var(i)})
+                         "axes": t["out"]["axes"], "variant": var(i), "disturb": (var(i) * 31 + 7) if var(i) % 3 == 0 else None})
     for t in kinds["sym"]:
         for rep in range(ctx.pick(2, 6)):
             i += 1
             run_sym(ctx, {"kind": "l2_sym", "dims": t["inp"]["dims"], "n": t["inp"]["n"], "pairs": t["out"]["pairs"],
-                          "variant": var(i)})
+                          "variant": var(i), "disturb": (var(i) * 31 + 7) if var(i) % 3 == 0 else None})
     ctx.exhaustive["L2_sym"] = True
     # ---- L3
     nrot, nsym = ctx.pick(60, 2500), ctx.pick(40, 1500)
     cases = [gen_rotblob(ctx.rng, k + 1, big) for k in range(nrot)]
-    cases += [gen_sym(ctx.rng, nrot + k + 1, big) for k in range(nsym)]
+    cases += [gen_sym(ctx.rng, nrot + k + 1, big, n=2 + k % 11) for k in range(nsym)]       # every n in 2..12
     cases += [gen_dtype(ctx.rng, nrot + nsym + k + 1) for k in range(ctx.pick(40, 1200))]
     cases += [gen_grey(ctx.rng, len(cases) + k + 1) for k in range(ctx.pick(40, 1200))]
     for k, c in enumerate(cases):
